@@ -314,7 +314,7 @@ def _site_task(args):
     vs = []
     roots = [r for r in c14.roots_for_site(mm, ok, on, path) if root_class(r[0]) is not None and r[0] not in mm.aliases]
     for alt in ort["items"]:
-        for slabel, v in ([("null", None)] if is_null_type(alt) else c14.shapes(mm, vse, alt, k)):
+        for slabel, v in ([("null", None)] if is_null_type(alt) else c14.shapes(mm, vse, alt, k, site_or=ort)):
             for rname, rt, rpath in roots:
                 j = c14.embed(mm, vse, rt, rpath, v)
                 if j is None or not mm.valid(j, rt, True):
